@@ -43,6 +43,7 @@ PROP = {  # commit subject prefix -> (property, what failed)
     "fix: the expression guarded by a handle that is used as a value": ("C05", "'def f() -> Int => \"s\" handle ...' and 'def r: Int := if c then .. else (None handle ...)' were accepted: the handled expression of a handle in value position was not constrained at all (found by C04's edits of the A.handle base: TypeError at run time)"),
     "fix: the new value of a reassignment is checked as an expression": ("C05", "'pm := if c then <block ending in \"s\"> else 1' with pm: Int was accepted for all 40 non-conforming type pairs: if/match on the right of ':=' were generated as statements, so their branches were never tied to the variable's type (also closed C06-F3 and the if-with-None half of C06-F5)"),
     "fix: every None literal is typed on its own": ("C06", "'def n: Int? := 1 / n := None / def f() -> Str? => None' was refused ('expected a Str?, was an Int?'): all None literals of a file were one expression for the unifier, so the nullable type learnt at one use was imposed on the others (396 of 7614 cases once every C06 case was also run behind an unrelated, legal None)"),
+    "fix: a function body and the new value of a reassignment are constrained before": ("C05", "'def h(b: Box) -> Int => b.f' with f: Float was accepted and '-> Float => b.f' with f: Int refused (likewise 'x := b.f'): the use constraint was queued before the access constraint, so the expression was replaced by the DECLARED type and the field's type then checked against it in the wrong direction; the same ordering let a nullable variable or field pass as last expression of a function returning T (C06-F4), a nullable field pass as new value of a T variable (C06-F5), refused 'o.f := None' for a nullable field (C06-F2) and changed the emitted shape of a one-line if under a comment (C14-F1)"),
     "fix: the output directory is created with its missing parents": ("C13", "'-o out/py' with a missing parent 'out' failed a valid project with 'No such file or directory (os error 2)' and no diagnostic (custom layout, 310 transitions of the thorough BFS)"),
 }
 def main():
